@@ -141,6 +141,11 @@ def find_prop_conflicts(dp, sp, path, out):
         out.append(('hard', 'property_dtype', path))
     for attr in ('_unit', '_definition', '_reference', '_value_origin'):
         sev = text_conflict(dp[attr], sp[attr])
+        if sev and attr == '_unit':
+            # a unit is a symbol, not prose: 'mV' and 'MV' (or 'm s' and 'ms') are different units, so any
+            # difference is a conflict the strict merge has to refuse (the statement lists unit conflicts
+            # without any normalisation; only prose attributes may be compared leniently)
+            sev = 'hard'
         if sev:
             out.append((sev, 'property' + attr, path))
     a, b = dp['_uncertainty'], sp['_uncertainty']
